@@ -63,6 +63,10 @@ package gomavlib
 //@   ensures  [reader-and-writer-joined-first] logFind("recv", "readerDone", 0) >= 0 && logFind("recv", "readerDone", 0) < PE &&
 //@              logFind("recv", "writerDone", 0) >= 0 && logFind("recv", "writerDone", 0) < PE
 //@   ensures  [transport-closed-first] logCount("io.Closer.Close") == 1 && logFind("io.Closer.Close", "", 0) < PE
+//@   ensures  [reader-unblocked-before-it-is-awaited] !logIs(R0, "recv", "readerDone") ==>
+//@              logFind("io.Closer.Close", "", 0) < logFind("recv", "readerDone", 0)
+//@   ensures  [writer-told-to-stop-before-it-is-awaited] !logIs(R0, "recv", "writerDone") ==>
+//@              logFind("close", "writerTerminate", 0) >= 0 && logFind("close", "writerTerminate", 0) < logFind("recv", "writerDone", 0)
 //@   ensures  [cause-reported] (logIs(R0, "recv", "readerDone") || logIs(R0, "recv", "writerDone")) ==>
 //@              logArg(PE, 1).(*EventChannelClose).Error == logArg(R0, 0).(error)
 //@   ensures  [closed-by-node-has-no-cause] logIs(R0, "recv", "ctx.Done") ==> logArg(PE, 1).(*EventChannelClose).Error == nil
